@@ -816,7 +816,7 @@ pub fn c05() -> CheckDef {
             what: "the same through the public API: real Client/Server on a loss-free order-preserving link, 1-3 clients, both directions" },
         Family { name: "a_ideal", world: "A", weight: 3, gen: c05_gen, oracles: c05_oracles, adversary: None, keep_workload: false, custom: None,
             what: "order-preserving loss-free link (fixed or varying latency 0.05 ms..3 s), both directions, bursts beyond the flush budget and both windows, arbitrary cadences and stalls, all initial ids; delivered sequence must equal submitted sequence minus sender-dropped TimeSensitive packets" }],
-        panic_is_violation: no_panics,
+        panic_is_violation: all_panics,
         hang_is_violation: false,
         quick_runs: 1500,
         thorough_runs: 40_000,
